@@ -68,8 +68,6 @@ Lemma existsb_pointwise {A} (f g : A -> bool) l : (forall x, f x = g x) -> exist
 Proof. intros H; induction l as [|x r IH]; cbn [existsb]; [reflexivity|]. rewrite H, IH. reflexivity. Qed.
 
 (** ---- the code's check is the property's decision function ---- *)
-Definition verdict_grant (v : verdict) : option grant :=
-  match v with VSame => Some same_origin_grant | VAllow g => Some g | VRefuse => None end.
 
 Lemma check_is_spec parse get m s a p o : mem_byte c_colon s = false ->
   check_cors_request parse is_part_of_origin get m (Some s) (Some a) p o
@@ -163,9 +161,6 @@ Section Primes.
                      :: (if cc_new cfg then [((-100)%Z, P_uri_redirect)] else []).
   Proof. unfold prime_list, gate_id. destruct (cc_new cfg), (cc_with_cors cfg); reflexivity. Qed.
 
-  Definition has (n : bytes) (r : request) : bool := match header n r with Some _ => true | None => false end.
-  (** the shape the preflight Prime reacts to *)
-  Definition pf_shape (r : request) : bool := (rq_method r =? M_OPTIONS) && has H_ORIGIN r && has H_ACRM r.
   Definition ov_of (r : request) : option bytes :=
     if pf_shape r then Some OV_OPTIONS
     else match req_verdict parse conn_scheme cfg r with VRefuse => Some OV_FAIL | _ => None end.
@@ -619,3 +614,112 @@ Section Invariant.
     - apply IH. cbn [fst snd]. intros k e [].
   Qed.
 End Invariant.
+
+(** ---- the statements of Properties/C13.v ---- *)
+
+(** the verdict is the decision function applied to the most specific rule of the configuration history *)
+Lemma verdict_most_specific parse conn_scheme cfg hist r a :
+  rs_reach hist (cc_rules cfg) -> header H_HOST r = Some a ->
+  req_verdict parse conn_scheme cfg r
+  = cors_spec parse (hist_lookup cfg hist) (rq_method r) conn_scheme a (rq_path r) (header H_ORIGIN r).
+Proof.
+  intros Hr Ha. unfold req_verdict, cors_spec, hist_lookup, effective_rules. rewrite Ha.
+  destruct (cc_with_cors cfg); [rewrite (rs_get_resolve hist (cc_rules cfg) (rq_path r) Hr)|]; reflexivity.
+Qed.
+
+Definition decision_statement : Prop :=
+  forall (parse : bytes -> option uparts) (conn_scheme : bytes) (cfg : ccfg) (c : cache) (now : N) (r0 : request) (a o : bytes),
+    mem_byte c_colon conn_scheme = false -> handlers_external cfg -> no_internal c ->
+    header H_HOST r0 = Some a -> header H_ORIGIN r0 = Some o -> sanitize_ok_fix r0 = true -> stable cfg r0 ->
+    (req_verdict parse conn_scheme cfg r0 = VRefuse ->
+       respond parse is_part_of_origin conn_scheme cfg (c, tt) now r0
+       = ((c, tt), mkWire 403 [] (if rq_method r0 =? M_HEAD then [] else DENIED) []))
+    /\ (req_verdict parse conn_scheme cfg r0 <> VRefuse -> pf_shape r0 = false ->
+       respond parse is_part_of_origin conn_scheme cfg (c, tt) now r0
+       = (fst (respond parse is_part_of_origin conn_scheme cfg (c, tt) now (strip_origin r0)),
+          let w := snd (respond parse is_part_of_origin conn_scheme cfg (c, tt) now (strip_origin r0)) in
+          mkWire (w_status w) (if cc_with_cors cfg then set_header H_ACAO o (w_headers w) else w_headers w) (w_body w) (w_log w))).
+Lemma decision_proof : decision_statement.
+Proof.
+  intros parse sch cfg c now r0 a o Hsch Hext Hc Ha Ho Hs Hst. split.
+  - intros Hv. apply (refused_reply parse sch cfg Hsch Hext c now r0 a Ha Hs Hc Hst Hv).
+  - intros Hv Hpf. apply (allowed_reply parse sch cfg Hsch (c, tt) now r0 a o Ha Hs Hst Ho Hv Hpf).
+Qed.
+
+Lemma cache_independent_proof :
+  forall (parse : bytes -> option uparts) (conn_scheme : bytes) (cfg : ccfg) (r0 : request) (a : bytes),
+    mem_byte c_colon conn_scheme = false -> handlers_external cfg ->
+    header H_HOST r0 = Some a -> sanitize_ok_fix r0 = true -> stable cfg r0 ->
+    (* (a) the invariant holds in every state a history of requests and clears can reach *)
+    (forall ops now, no_internal (fst (run_conn_state parse is_part_of_origin conn_scheme cfg ([], tt) now ops)))
+    (* (b) a refused request and a preflight get the same reply and leave the cache alone in every such state *)
+    /\ (req_verdict parse conn_scheme cfg r0 = VRefuse \/ (pf_shape r0 = true) ->
+        forall c1 c2 now1 now2, no_internal c1 -> no_internal c2 ->
+          snd (respond parse is_part_of_origin conn_scheme cfg (c1, tt) now1 r0)
+          = snd (respond parse is_part_of_origin conn_scheme cfg (c2, tt) now2 r0)
+          /\ fst (respond parse is_part_of_origin conn_scheme cfg (c1, tt) now1 r0) = (c1, tt)).
+Proof.
+  intros parse sch cfg r0 a Hsch Hext Ha Hs Hst. split.
+  - intros ops now. apply reachable_no_internal. intros k e [].
+  - intros Hcase c1 c2 now1 now2 Hc1 Hc2.
+    destruct (req_verdict parse sch cfg r0) eqn:Hv.
+    + destruct Hcase as [Hcase|Hpf]; [discriminate|].
+      destruct (header H_ORIGIN r0) as [o|] eqn:Ho.
+      2:{ unfold pf_shape, has in Hpf. rewrite Ho in Hpf. rewrite andb_false_r in Hpf. discriminate. }
+      rewrite (preflight_reply parse sch cfg Hsch Hext c1 now1 r0 a o None [] 604800000 Ha Hs Hc1 Hst Hpf Ho) by (rewrite Hv; reflexivity).
+      rewrite (preflight_reply parse sch cfg Hsch Hext c2 now2 r0 a o None [] 604800000 Ha Hs Hc2 Hst Hpf Ho) by (rewrite Hv; reflexivity).
+      split; reflexivity.
+    + destruct Hcase as [Hcase|Hpf]; [discriminate|].
+      destruct (header H_ORIGIN r0) as [o|] eqn:Ho.
+      2:{ unfold pf_shape, has in Hpf. rewrite Ho in Hpf. rewrite andb_false_r in Hpf. discriminate. }
+      destruct g as [[ms hs] t].
+      rewrite (preflight_reply parse sch cfg Hsch Hext c1 now1 r0 a o ms hs t Ha Hs Hc1 Hst Hpf Ho) by (rewrite Hv; reflexivity).
+      rewrite (preflight_reply parse sch cfg Hsch Hext c2 now2 r0 a o ms hs t Ha Hs Hc2 Hst Hpf Ho) by (rewrite Hv; reflexivity).
+      split; reflexivity.
+    + rewrite (refused_reply parse sch cfg Hsch Hext c1 now1 r0 a Ha Hs Hc1 Hst Hv).
+      rewrite (refused_reply parse sch cfg Hsch Hext c2 now2 r0 a Ha Hs Hc2 Hst Hv). split; reflexivity.
+Qed.
+
+Lemma same_origin_proof :
+  forall (parse : bytes -> option uparts) (conn_scheme : bytes) (cfg : ccfg) (st : state unit) (now : N) (r0 : request) (a o : bytes),
+    mem_byte c_colon conn_scheme = false ->
+    header H_HOST r0 = Some a -> header H_ORIGIN r0 = Some o -> sanitize_ok_fix r0 = true -> stable cfg r0 ->
+    req_verdict parse conn_scheme cfg r0 = VSame -> pf_shape r0 = false ->
+    respond parse is_part_of_origin conn_scheme cfg st now r0
+    = (fst (respond parse is_part_of_origin conn_scheme cfg st now (strip_origin r0)),
+       let w := snd (respond parse is_part_of_origin conn_scheme cfg st now (strip_origin r0)) in
+       mkWire (w_status w) (if cc_with_cors cfg then set_header H_ACAO o (w_headers w) else w_headers w) (w_body w) (w_log w)).
+Proof.
+  intros parse sch cfg st now r0 a o Hsch Ha Ho Hs Hst Hv Hpf.
+  apply (allowed_reply parse sch cfg Hsch st now r0 a o Ha Hs Hst Ho); [rewrite Hv; discriminate|exact Hpf].
+Qed.
+
+(** ---- witnesses ---- *)
+Definition ex_al (origins : list aorigin) (all : bool) : allow_list :=
+  mkAL origins all (Some [M_GET; M_HEAD; M_OPTIONS]) [B "content-type"] 1500.
+Definition ex_hist : list (bytes * allow_list) :=
+  [(B "/api/*", ex_al [mkAO (B "https") (B "icelk.dev") None] false); (B "/api/index.html", ex_al [] true)].
+Definition ex_cfg : ccfg := mkCfgC true true (rs_build rs_add ex_hist) [(B "/api/x", 2); (B "/api/index.html", 2)] true.
+Definition ex_req (m : N) (p : bytes) (hs : list (bytes * bytes)) : request := mkReq m p None ((H_HOST, B "localhost") :: hs) 0.
+
+(** the known class: GET /api/ from an origin the rule of /api/ refuses; uri_redirect moves the path to
+    /api/index.html whose rule allows all origins: 403 *with* access-control-allow-origin *)
+Lemma known_class_witness :
+  let r := ex_req M_GET (B "/api/") [(H_ORIGIN, B "https://evil.example")] in
+  req_verdict parse_uri CONN_SCHEME ex_cfg r = VRefuse /\ ~ stable ex_cfg r /\
+  snd (respond parse_uri is_part_of_origin CONN_SCHEME ex_cfg ([], tt) 0 r)
+  = mkWire 403 [(H_ACAO, B "https://evil.example")] DENIED [].
+Proof.
+  cbv zeta. split; [vm_compute; reflexivity|]. split; [|vm_compute; reflexivity].
+  unfold stable. vm_compute. discriminate.
+Qed.
+
+(** the code before the repair: Origin: null took the same-origin branch *)
+Lemma null_origin_v0_witness :
+  let r := ex_req M_GET (B "/api/x") [(H_ORIGIN, B "null")] in
+  req_verdict parse_uri CONN_SCHEME ex_cfg r = VRefuse /\ stable ex_cfg r /\
+  snd (respond parse_uri is_part_of_origin_v0 CONN_SCHEME ex_cfg ([], tt) 0 r)
+  = mkWire 200 [(H_ACAO, B "null")] (B "h0:/api/x") [B "h0"].
+Proof.
+  cbv zeta. split; [vm_compute; reflexivity|]. split; vm_compute; reflexivity.
+Qed.
